@@ -278,7 +278,8 @@ def check_prepare(ctx: Ctx, rule: str, which: str) -> dict:
     by_field: dict[str, list] = {}
     for obj, field, val, node in stores:
         by_field.setdefault(field, []).append((obj, val, node))
-        ctx.check(_root_name(obj) in copies, rule, f, f"store to {unparse(obj)}.{field} in {which}",
+        obj_r = C.inline_locals(f, obj) or obj  # `retries = copy.retries; object.__setattr__(retries, ...)`: a local alias of a part of the copy
+        ctx.check(_root_name(obj_r) in copies or _root_name(obj) in copies, rule, f, f"store to {unparse(obj)}.{field} in {which}",
                   "store targets the copy", f"{which} modifies {unparse(obj)}.{field}: the delivered parameters themselves must stay unchanged "
                   "(a message returned by reject/finish would carry a changed retry counter or schedule)", node=node,
                   instance=f"{which}: store {field} on copy")
